@@ -454,7 +454,8 @@ fn regex_eval(mk: &ExpectationMaker, text: &str, lines: &[Vec<u8>]) -> Result<Re
         fails.push(("C04:regex-kind".to_string(), format!("`{text} (regex)` parsed as kind {kind} with expression {cleaned:?}")));
         return Ok(RegexEval { impl_bits: "kind".into(), cleaned, fails, tags });
     }
-    let plain = !text.contains(['\\', '{', '}', '[', ']']);
+    // `plain` of Lemmas/RegexCleanup.lean (without backslash the pair condition is void): C04_cleanup_identity
+    let plain = !text.contains(['\\', '{', '}', '[', ']']) && !text.contains("<<<<");
     if plain && cleaned != text {
         fails.push(("C04:regex-cleanup-altered-plain-expression".to_string(), format!("{text:?} became {cleaned:?}")));
     }
@@ -596,6 +597,74 @@ fn regex_oracle_only(prop: &str, mk: &ExpectationMaker, op: String, text: &str, 
     }
 }
 
+
+// ---------------------------------------------------------------- regex clean-up passes
+
+/// the expression `RegexRule` stores after its three clean-up passes: `unmake()` when the rule
+/// compiles; when it does not, the regex crate's syntax error quotes the pattern it was given
+/// (`^(?:<cleaned>)$`, on the line after "regex parse error:", indented by four spaces) and the
+/// cleaned expression is read from there. `None` = not observable (size-limit errors, panics).
+fn cleaned_of(res: Result<anyhow::Result<Box<dyn scrut::rules::rule::Rule>>, String>) -> (Option<String>, &'static str) {
+    match res {
+        Err(_) => (None, "crash"),
+        Ok(Ok(rule)) => {
+            let (_, expr) = rule.unmake();
+            (String::from_utf8(expr).ok(), "compiles")
+        }
+        Ok(Err(e)) => {
+            let msg = format!("{e:#}");
+            let mut lines = msg.lines();
+            while let Some(l) = lines.next() {
+                if l.trim_end() == "regex parse error:" {
+                    if let Some(pl) = lines.next() {
+                        if let Some(body) = pl.strip_prefix("    ").and_then(|x| x.strip_prefix("^(?:")).and_then(|x| x.strip_suffix(")$")) {
+                            return (Some(body.to_string()), "rejected");
+                        }
+                    }
+                }
+            }
+            (None, "rejected-unobservable")
+        }
+    }
+}
+
+/// a batch of expressions through the real `RegexRule::make` (directly, or through
+/// `ExpectationMaker::parse("<e> (regex)")`) against the model's `regexClean`
+fn cleanup_case(prop: &str, mk: Option<&ExpectationMaker>, exprs: &[String], tag: &str) -> Option<CaseRec> {
+    use scrut::rules::regex::RegexRule;
+    let mut sent = vec![];
+    let mut outs = vec![];
+    let mut tags = vec![];
+    let mut fails = vec![];
+    let (mut changed, mut same) = (0u64, 0u64);
+    for e in exprs {
+        let res = match mk {
+            Some(mk) => guarded(|| mk.parse(&format!("{e} (regex)")).map(|x| x.rule)),
+            None => guarded(|| RegexRule::make(e)),
+        };
+        let (cleaned, how) = cleaned_of(res);
+        tags.push(format!("rxclean:{tag}:{how}"));
+        if how == "crash" {
+            fails.push(("C04:regex-crash".to_string(), format!("RegexRule::make panicked on {e:?}")));
+        }
+        if let Some(c) = cleaned {
+            if &c != e { changed += 1 } else { same += 1 }
+            sent.push(hex(e.as_bytes()));
+            outs.push(hex(c.as_bytes()));
+        }
+    }
+    if sent.is_empty() {
+        return None;
+    }
+    tags.push(format!("rxclean:{tag}:batch changed={} unchanged={}", bucket(changed), bucket(same)));
+    Some(CaseRec { op: format!("rxclean {}", sent.join(",")), impl_out: outs.join(","), oracle_fail: keep(prop, fails), nontrivial: changed > 0, tags })
+}
+
+const CLEAN_ALPHA: [char; 12] = ['a', '\\', '{', '}', '[', ']', '1', ',', '-', '<', '>', '|'];
+const CLEAN_POOL: [&str; 36] = [
+    "a", "b", "\\", "\\", "{", "}", "[", "]", "1", "2", "0", "9", ",", "-", "<", ">", "|", "(", ")", ".", "*", "+", "?", "^", "$", "\\d", "\\w", "\\_", "\\<", "é", " ", "<<<<", ">>>>", "{1,2}", "{3}", "\\\\",
+];
+
 const BRACKET_ALPHA: [char; 6] = ['a', 'b', '[', ']', '\\', '-'];
 /// all lines over the bracket alphabet up to length 3
 fn bracket_lines() -> Vec<Vec<u8>> {
@@ -677,6 +746,45 @@ pub fn run(ctx: &Ctx, prop: &str) {
         Some(regex_oracle_only(prop, &dmk, op, &text, &blines))
     });
     ctx.note("regex clean-up passes (not modelled): whenever the expression as written is itself a valid regex of the regex crate, the rule is also compared with `\\A(?:written)\\z`. Deliberate deviations are only counted in the histogram (`\\<`/`\\>` read as literals; `[` inside a class read as a literal instead of a nested class); any other change of meaning is reported as C04:regex-cleanup-changes-valid-regex, a valid regex that no longer parses as C04:regex-valid-regex-rejected".to_string());
+    // ---- the three clean-up passes against the model `regexClean` (cleaned text, also for rejected expressions)
+    let clen = if ctx.thorough { 6 } else { 5 };
+    let ntot = n_words(12, clen);
+    const BATCH: u64 = 128;
+    ctx.note(format!("regex clean-up: every expression over {{a \\ {{ }} [ ] 1 , - < > |}} up to length {clen} ({ntot} expressions, in batches of {BATCH}) through RegexRule::make, all up to length 3 and seeded random token strings through ExpectationMaker::parse"));
+    ctx.run_stream("regex-cleanup-exhaustive", (ntot + BATCH - 1) / BATCH, true, |idx| {
+        let exprs: Vec<String> = (idx * BATCH..((idx + 1) * BATCH).min(ntot)).map(|i| word_at(&CLEAN_ALPHA, i)).collect();
+        cleanup_case(prop, None, &exprs, "exhaustive")
+    });
+    let nsmall = n_words(12, 3);
+    ctx.run_stream("regex-cleanup-parse-exhaustive", (nsmall + 15) / 16, true, |idx| {
+        let exprs: Vec<String> = (idx * 16..((idx + 1) * 16).min(nsmall)).map(|i| word_at(&CLEAN_ALPHA, i)).collect();
+        cleanup_case(prop, Some(&dmk), &exprs, "parse")
+    });
+    // `<<<<…>>>>` written by the user (pass 2.3 rewrites it): prefix <=1, body <=3, suffix <=1 over 7 characters
+    let aa = ['a', '<', '>', '1', '{', '}', '\\'];
+    let (w1, w3) = (words(&aa, 1), words(&aa, 3));
+    ctx.run_stream("regex-cleanup-angle-exhaustive", (w1.len() * w1.len()) as u64, true, |idx| {
+        let (pre, suf) = (&w1[idx as usize / w1.len()], &w1[idx as usize % w1.len()]);
+        let exprs: Vec<String> = w3.iter().map(|m| format!("{pre}<<<<{m}>>>>{suf}")).collect();
+        cleanup_case(prop, None, &exprs, "angle")
+    });
+    // the same rewriting judged by the written-expression oracle (meaning, not text)
+    let mids = words(&['a', '1'], 2);
+    ctx.run_stream("regex-angle-oracle-exhaustive", (mids.len() * 2) as u64, true, |idx| {
+        let pre = if idx % 2 == 0 { "" } else { "x" };
+        let mid = &mids[(idx / 2) as usize];
+        let text = format!("{pre}<<<<{mid}>>>>");
+        let lines: Vec<Vec<u8>> = [text.clone(), pre.to_string(), format!("{pre}{pre}"), format!("{pre}{mid}"), format!("{pre}{{{mid}}}")].into_iter().map(|l| l.into_bytes()).collect();
+        let hexlines: Vec<String> = lines.iter().map(|l| hex(l)).collect();
+        let op = format!("oracle-only rx {} {}", hex(text.as_bytes()), hexlines.join(","));
+        Some(regex_oracle_only(prop, &dmk, op, &text, &lines))
+    });
+    let nclean = if ctx.thorough { 400_000 } else { 20_000 };
+    ctx.run_stream("regex-cleanup-random", nclean / 8, false, |idx| {
+        let mut rng = Rng::fork(seed, 43, idx);
+        let exprs: Vec<String> = (0..8).map(|_| { let n = rng.range(1, 12); (0..n).map(|_| *rng.pick(&CLEAN_POOL)).collect::<String>() }).collect();
+        cleanup_case(prop, Some(&dmk), &exprs, "random")
+    });
     // ---- arbitrary expressions: oracle only
     let narb = if ctx.thorough { 1_000_000 } else { 40_000 };
     let ab2 = words(&['a', 'b'], 3);
@@ -703,6 +811,16 @@ pub fn replay(prop: &str, op: &str) -> bool {
         ["oracle-only", "rx", expr, lines] => {
             let ls: Vec<Vec<u8>> = lines.split(',').map(unhex).collect();
             regex_oracle_only(prop, &default_maker(), op.to_string(), &text(expr), &ls)
+        }
+        ["rxclean", es] => {
+            let exprs: Vec<String> = es.split(',').map(|h| text(h)).collect();
+            match cleanup_case(prop, None, &exprs, "replay") {
+                Some(c) => c,
+                None => {
+                    eprintln!("nothing observable");
+                    return true;
+                }
+            }
         }
         ["oracle-only", "rxb", expr] => regex_oracle_only(prop, &default_maker(), op.to_string(), &text(expr), &bracket_lines()),
         ["rx", pol, alpha, maxlen, nl] => {
